@@ -236,11 +236,15 @@ func (g *Gen) calleeAxioms(f *ssa.Function) {
 		}
 	}
 	guard := and(append(invs, reqs...)...)
+	nlaw := 0
 	for _, cl := range ct.clauses {
 		switch cl.kind {
 		case "ensures", "assume":
 			if !g.tagAllowed(cl.tags) {
 				continue
+			}
+			if cl.kind == "ensures" && g.w.clauseIsFinding(f, cl, cl.ord) {
+				continue // a recorded finding is never used as a premise
 			}
 			t := env.tr(cl.expr)
 			if env.err != "" {
@@ -249,16 +253,17 @@ func (g *Gen) calleeAxioms(f *ssa.Function) {
 			}
 			g.assert(quant(implies(guard, t.t)))
 		case "comparator":
+			nlaw++
 			if !g.tagAllowed(cl.tags) {
 				continue
 			}
-			g.lawAxioms(f, ct, cl)
+			g.lawAxioms(f, ct, cl, g.w.lawFindings(f, nlaw)) // recorded findings are never used as premises
 		}
 	}
 }
 
 // lawAxioms: the total-preorder laws of a comparator callee as quantified axioms.
-func (g *Gen) lawAxioms(f *ssa.Function, ct *Contract, cl *Clause) {
+func (g *Gen) lawAxioms(f *ssa.Function, ct *Contract, cl *Clause, skip map[string]bool) {
 	// positions of left/right params
 	idx := map[string]int{}
 	for i, p := range f.Params {
@@ -301,15 +306,30 @@ func (g *Gen) lawAxioms(f *ssa.Function, ct *Contract, cl *Clause) {
 				gs = append(gs, env.tr(c.expr).t)
 			}
 		}
+		if cl.where != nil {
+			gs = append(gs, env.tr(cl.where).t)
+		}
 		return and(gs...)
 	}
 	da, a := mk("x!")
 	db, b := mk("y!")
 	dc, c := mk("z!")
 	fab, fba, fbc, fac, faa := app(a, b), app(b, a), app(b, c), app(a, c), app(a, a)
-	g.assert(fmt.Sprintf("(forall (%s) (! (=> %s (and (<= (- 1) %s) (<= %s 1))) :pattern (%s)))", strings.Join(append(da, db...), " "), guardOf(a, b), fab, fab, fab))
-	g.assert(fmt.Sprintf("(forall (%s) (! (=> %s (= %s 0)) :pattern (%s)))", strings.Join(da, " "), guardOf(a, a), faa, faa))
-	g.assert(fmt.Sprintf("(forall (%s) (! (=> (and %s %s) (= %s (- %s))) :pattern (%s)))", strings.Join(append(da, db...), " "), guardOf(a, b), guardOf(b, a), fab, fba, fab))
+	if skip["bounded"] {
+		return
+	}
+	if !skip["range"] {
+		g.assert(fmt.Sprintf("(forall (%s) (! (=> %s (and (<= (- 1) %s) (<= %s 1))) :pattern (%s)))", strings.Join(append(da, db...), " "), guardOf(a, b), fab, fab, fab))
+	}
+	if !skip["refl"] {
+		g.assert(fmt.Sprintf("(forall (%s) (! (=> %s (= %s 0)) :pattern (%s)))", strings.Join(da, " "), guardOf(a, a), faa, faa))
+	}
+	if !skip["antisym"] {
+		g.assert(fmt.Sprintf("(forall (%s) (! (=> (and %s %s) (= %s (- %s))) :pattern (%s)))", strings.Join(append(da, db...), " "), guardOf(a, b), guardOf(b, a), fab, fba, fab))
+	}
+	if skip["trans"] {
+		return
+	}
 	all := strings.Join(append(append(da, db...), dc...), " ")
 	gd := and(guardOf(a, b), guardOf(b, c), guardOf(a, c))
 	g.assert(fmt.Sprintf("(forall (%s) (! (=> (and %s (<= %s 0) (<= %s 0)) (and (<= %s 0) (=> (or (< %s 0) (< %s 0)) (< %s 0)))) :pattern (%s %s)))", all, gd, fab, fbc, fac, fab, fbc, fac, fab, fbc))
